@@ -179,6 +179,7 @@ def gen_c09_circles(rnd, tier):
             dx, dy, dr = rnd.randint(-g, g), rnd.randint(-g, g), rnd.randint(-g, g)
             if 9 * (dx * dx + dy * dy) <= R * R:
                 gs.append([ctr[0] + dx, ctr[1] + dy, R + dr])
+        gs += [[x[0] + rnd.randint(-1, 1), x[1], R, 1] for x in gs[:2]]          # mean-distance radius guesses
         out.append({'m': 'fit', 'op': 'cfit', 'kind': 'exact', 'R': R, 'ctr': list(ctr), 'pts': pts, 'sc': rnd.choice((0, -10, 4, -3, 7)),
                     'sg2': rnd.choice((0, 0, 6, 4)), 'gs': gs})
     # inexact data: displaced ring points
@@ -193,6 +194,7 @@ def gen_c09_circles(rnd, tier):
         pts = [[rg[(a + j) % N][0] + ctr[0] + rnd.randint(-amp, amp), rg[(a + j) % N][1] + ctr[1] + rnd.randint(-amp, amp)] for j in range(n)]
         g = R // 3
         gs = [[ctr[0] + rnd.randint(-g // 2, g // 2), ctr[1] + rnd.randint(-g // 2, g // 2), R + rnd.randint(-g // 2, g // 2)] for _ in range(4)]
+        gs += [[x[0], x[1], R, 1] for x in gs[:2]]
         out.append({'m': 'fit', 'op': 'cfit', 'kind': 'noisy', 'R': R, 'ctr': list(ctr), 'pts': pts, 'sc': rnd.choice((0, -10, 4, -3)), 'sg2': 0, 'gs': gs})
     # three-point circles with negative coordinates (circumradius kept small enough for 31-bit judging)
     for _ in range(12 if tier == 'quick' else 200):
